@@ -844,8 +844,11 @@ def work(item):
                     if bad:
                         res["nbad"] += 1
                         for kind, info in bad:
-                            sgn = {"kind": kind, "mech": mech, "cfg": cfg, "ret": R, "body": label,
-                                   "args": ",".join(A) if kind in ("arguments-seen", "python-function-invocations") else "-"}
+                            if kind in ("arguments-seen", "python-function-invocations"):
+                                sgn = {"kind": kind, "mech": mech, "args": ",".join(A) or "void", "cfg": "-", "ret": "-",
+                                       "body": "-"}
+                            else:
+                                sgn = {"kind": kind, "mech": mech, "args": "-", "cfg": cfg, "ret": R, "body": label}
                             ent = res["bad"].setdefault(repr(sorted(sgn.items())), [sgn, 0, []])
                             ent[1] += 1
                             if len(ent[2]) < 2:
@@ -853,7 +856,7 @@ def work(item):
                                                "cfg": cfg, "case": [case[0], case[1], case[2]],
                                                "returns": enc(rets[case[2]][1]) if case[2] is not None else "raise",
                                                "kind": kind, "info": info})
-                    elif res["cases"] % 4999 == 0:
+                    if res["cases"] % 4999 == 1:
                         res["samples"].append({"decl": sig_decl(sg, "f"), "mech": mech, "cfg": cfg, "arg_index": case[0],
                                                "body": label, "received": bytes(L.res[:max(L.res_len.value, 0)]).hex()})
                 del keepalive
